@@ -170,7 +170,7 @@ def _c12():
             lambda: syscheck.C12Scenario(tier), "system-c12", "C12", "C12", tier, seed, budget_s, jobs,
             level="exploration", rule=RULE_SYS, assumptions=ASSUME_SYS,
             real_components=REAL_SYS, stub_components=STUB_SYS,
-            required_probes=["lifecycle_serve", "lifecycle_never-served", "lifecycle_shutdown-inflight", "lifecycle_handle-loop", "lifecycle_serve-twice",
+            required_probes=["lifecycle_serve", "lifecycle_never-served", "lifecycle_shutdown-inflight", "lifecycle_handle-loop", "lifecycle_serve-twice", "lifecycle_close-while-serving",
                              "server_plain", "server_pooled", "server_pooled-user", "family_unix", "family_tcp",
                              "two_methods_executing_at_once", "shutdown_with_request_in_flight", "invalid_body_sent",
                              "client_died_mid_body", "client_aborted_connection", "shared_request_and_notification_pool",
@@ -326,7 +326,7 @@ def _c17():
                          "framing, URL and scheme clauses are functions of the input; the simulator contributes the wire observation point, segmentation and the chunk knob"],
             real_components=REAL_CLI + ["jsonrpclib.SimpleJSONRPCServer do_POST / CGI handler - real code"], stub_components=STUB_CLI,
             required_probes=["mode_client", "mode_server", "mode_cgi", "mode_scheme", "backend_raw_utf8", "encoding_gzip", "encoding_gzip-multi",
-                             "encoding_chunked", "unbuffered_request_stream",
+                             "encoding_chunked", "unbuffered_request_stream", "empty_request_body",
                              "multibyte_response_beyond_first_read", "multibyte_request_with_small_read_chunk", "whitespace_only_read_block", "earlier_exchange_cut_mid_body", "query_string",
                              "percent_escape_in_path", "family_unix", "short_reads"])
 
